@@ -713,6 +713,20 @@ def run_specs(ctx, specs, prop, name):
     return raw
 
 
+EXC_IDS = [("Value size too large", "value_size"), ("Unable to extract fixed width", "fixed_width"),
+           ("First Field in a Repeating Group", "group_first_field"), ("Checksum", "checksum"), ("checksum", "checksum"),
+           ("Missing Mandatory", "missing_mandatory"), ("Duplicate", "duplicate_field"), ("Invalid Repeating Group", "invalid_group"),
+           ("Invalid Message", "invalid_message"), ("Unknown Field", "unknown_field")]
+
+
+def exc_id(text):
+    """Short name of the library exception a step ended with (projection of its text, for signatures)."""
+    for needle, name in EXC_IDS:
+        if needle in text:
+            return name
+    return "other"
+
+
 def to_monitor(sp, evs, prop):
     """Project the probe's events of one execution onto the monitor alphabet."""
     empty = {"h": [], "b": [], "t": []}
@@ -745,9 +759,10 @@ def to_monitor(sp, evs, prop):
                 m["tree"] = ev.get("tree", empty)
             out.append(m)
         elif e in ("Decode", "CopyLegal", "MoveLegal"):
-            m = {"e": e, "ok": bool(ev.get("ok")), "tree": ev.get("tree", empty)}
+            m = {"e": e, "ok": bool(ev.get("ok")), "tree": ev.get("tree", empty), "excid": ""}
             if "exc" in ev:
                 m["exc"] = ev["exc"][:120]
+                m["excid"] = exc_id(ev["exc"])
             out.append(m)
     return out
 
